@@ -506,7 +506,21 @@ fn mutate(rng: &mut Rng, src: &[u8], other: &[u8]) -> (&'static str, Vec<u8>) {
 fn feed(ctx: &mut Ctx, rng: &mut Rng, kind: Kind, what: &str, d: &[u8]) {
     let via = if rng.chance(1, 3) { Via::Alt } else { Via::Owned };
     let dribble = rng.chance(1, 4);
-    let cap = *rng.pick(&[1usize, 2, 5, 16, 4096]);
+    let cap = *rng.pick(&DRIBBLE_CAPS);
+    feed_as(ctx, kind, via, if dribble { Some(cap) } else { None }, what, d);
+}
+
+/// `BufReader` capacities used when a document is dribbled to the parser.
+pub const DRIBBLE_CAPS: [usize; 5] = [1, 2, 5, 16, 4096];
+
+/// One document through one parser of `kind` (`via`: the owned parser or
+/// `parse_limited` / the collecting processor), optionally dribbled through a
+/// `BufReader` of `dribble_cap` octets: no panic, and a value the owned parser
+/// accepts must survive `write_xml` followed by a parse to an equal value.
+/// (Also the evaluation function of the libFuzzer target `c09_rrdp`.)
+pub fn feed_as(ctx: &mut Ctx, kind: Kind, via: Via, dribble_cap: Option<usize>, what: &str, d: &[u8]) {
+    let dribble = dribble_cap.is_some();
+    let cap = dribble_cap.unwrap_or(1);
     let detail = || json!({"kind": kind.name(), "mutator": what, "via": format!("{:?}", via), "dribble_cap": if dribble { Some(cap) } else { None }, "input_hex": crate::core::hex(&d[..d.len().min(6000)]), "input_len": d.len()});
     let res = ctx.no_panic(&format!("parse-{}", kind.name()), detail, || {
         if dribble {
